@@ -334,6 +334,18 @@ theorem group_additivity_rates (p : Rt) (inj : Bool) (dt : K) (f : Forest K)
     evalRate p inj (forestCtx f dt) = (f.rateItems p inj dt).sum :=
   group_additivity_rate p inj dt f hn hp
 
+/-- `group_total_over_changing_trees`: in a history whose group tree changes between evaluations
+(GRUPTREE re-parenting, wells moved or added, GEFAC / WEFAC changed at later report steps) evaluation `i`
+uses the forest `h.1` of its own step: the accumulated group (or field) total is the initial value plus
+Σ_i factor × (Σ_c gefac_i(c) · G·R_i(c) + Σ_w wefac_i(w) · W·R_i(w)) × dt_i with children, wells and
+factors all taken from the tree of step `i`; any number of evaluations, any trees. -/
+theorem group_total_over_changing_trees (key : String) (htot : stateIsTotal key = true) (f : K)
+    (p : Rt) (inj : Bool) (hs : List (Forest K × K)) (t0 : K)
+    (hn : ∀ h ∈ hs, h.1.names.Nodup) (hp : ∀ h ∈ hs, h.1.NonNeg) :
+    accumulate key f (.mul (.rate p inj) .duration) (hs.map (fun h => forestCtx h.1 h.2)) t0 =
+      some (t0 + (hs.map (fun h => f * ((h.1.rateItems p inj h.2).sum * h.2))).sum) :=
+  Proofs.group_total_changing_trees key htot f p inj hs t0 hn hp
+
 /-! ## accumulation -/
 
 /-- `cumulative_step`: after one evaluation with step length `dt` a total key holds the
@@ -690,6 +702,23 @@ example : forest1.names.Nodup := by decide
 example : forest1.NonNeg := by simp [forest1, Forest.NonNeg, wProd]; norm_num
 example : forest1.facs 1 = [(wProd "P1" "G1" 1 (-10) (-3), 1), (wProd "P3" "G2" (1/2) (-4) 2, 3/8)] := by
   simp [forest1, Forest.facs, wProd]; norm_num
+
+/-- the same node one report step later: sub-group G2 (with P3) has been moved elsewhere by GRUPTREE -/
+def forest1Later : Forest ℚ := .well (wProd "P1" "G1" 1 (-10) (-3)) .nil
+
+/-- hypotheses of `group_total_over_changing_trees` are met by a two-step history whose tree changes,
+and the total really follows the tree of each step: 10·(10 + 3/4·(1/2·4)) + 5·10 -/
+example : (∀ h ∈ [(forest1, (10 : ℚ)), (forest1Later, 5)], h.1.names.Nodup) ∧
+    (∀ h ∈ [(forest1, (10 : ℚ)), (forest1Later, 5)], h.1.NonNeg) ∧ stateIsTotal "GOPT" = true := by
+  refine ⟨?_, ?_, by decide +kernel⟩
+  · intro h hh; simp only [List.mem_cons, List.mem_nil_iff, or_false] at hh
+    rcases hh with rfl | rfl <;> decide
+  · intro h hh; simp only [List.mem_cons, List.mem_nil_iff, or_false] at hh
+    rcases hh with rfl | rfl <;> (simp [forest1, forest1Later, Forest.NonNeg, wProd]; try norm_num)
+example : ([(forest1, (10 : ℚ)), (forest1Later, 5)].map
+      (fun h => (1 : ℚ) * ((h.1.rateItems .oil false h.2).sum * h.2))).sum = 165 := by
+  simp [forest1, forest1Later, Forest.rateItems, evalRate, rateLoop, wellCtx, forestCtx, Forest.facs, efacLookup, wProd, lookupRate]
+  norm_num
 
 /-- hypotheses of `cumulative_step_update` are met by `WOPT` -/
 example : lookupFun "WOPT" = some (.mul (.rate .oil false) .duration) ∧ stateIsTotal "WOPT" = true ∧
